@@ -31,7 +31,7 @@ def boxesOf : List ℚ → Option (List (ℚ × ℚ × ℚ × ℚ))
 
 def showObj (o : Sweep.Obj) : String := (if o.side then "b" else "a") ++ toString o.idx
 
-/-- `sweep nA l b r t ...` (first nA boxes = seta): instructions, stable sort by key, event loop.
+/-- `sweep nA l b r t ...` (first nA boxes = seta): instructions, stable sort by (key, verb), event loop.
     The overlap test is the generated `BoundingBox.overlaps`. -/
 def sweep (nA : Nat) (bs : List (ℚ × ℚ × ℚ × ℚ)) : String :=
   let A := bs.take nA
@@ -40,7 +40,11 @@ def sweep (nA : Nat) (bs : List (ℚ × ℚ × ℚ × ℚ)) : String :=
   let key : Sweep.Ev → ℚ
     | .add o => (box o).1
     | .rem o => (box o).2.2.1
-  let evs := (Sweep.instructions A.length B.length).mergeSort (fun a b => key a ≤ key b)
+  let isRem : Sweep.Ev → Bool
+    | .add _ => false
+    | .rem _ => true
+  -- sorted(instructions, key = (x, verb is remove_from)): stable, additions before removals at equal x (F27)
+  let evs := (Sweep.instructions A.length B.length).mergeSort (fun a b => key a < key b || (key a == key b && (!isRem a || isRem b)))
   let ov (o o2 : Sweep.Obj) : Bool :=
     Gen.bbox_overlaps (box o).1 (box o).2.1 (box o).2.2.1 (box o).2.2.2 (box o2).1 (box o2).2.1 (box o2).2.2.1 (box o2).2.2.2
   let st := Sweep.run ov evs
